@@ -181,8 +181,8 @@ func (t *irGen) chainStep(reorgDepth int) {
 // ---------------------------------------------------------------- C07
 
 func genImp(g *Gen) {
-	nHist := g.Scale(70, 1500)
-	nLong := g.Scale(3, 60)
+	nHist := g.Scale(70, 1000)
+	nLong := g.Scale(3, 50)
 	for h := 0; h < nHist; h++ {
 		long := h < nLong
 		genImpHistory(g, long)
@@ -369,7 +369,7 @@ func genImpHistory(g *Gen, long bool) {
 // ---------------------------------------------------------------- C08
 
 func genRem(g *Gen) {
-	nHist := g.Scale(90, 2000)
+	nHist := g.Scale(90, 1500)
 	for h := 0; h < nHist; h++ {
 		genRemHistory(g, h)
 	}
